@@ -70,7 +70,7 @@ UNITS = sum([
     _u("reverser", _TRK, _tr, "VP_H_REVERSER", ["bidib_config_parse_single_board_reverser"], ["id", "cv", "q", "7", "zz"], 6),
     _u("board_setup", _TRK, _tr, "VP_H_BOARD_SETUP", ["bidib_config_parse_single_board_setup"], ["id", "points-board", "points-dcc", "signals-board", "signals-dcc", "peripherals", "segments", "reversers", "B", "zz"], 9, prefix=9),
     _u("train_calibration", _TRN, _tn, "VP_H_CALIBRATION", ["bidib_config_parse_single_train_calibration"], ["5", "126", "127", "zz"], 11, elt=4, cap=10, unwind=11),
-    _u("train_function", _TRN, _tn, "VP_H_TRAIN_PERIPH", ["bidib_config_parse_single_train_peripheral"], ["id", "bit", "initial", "p", "q", "r", "1", "31", "32", "zz"], 8),
+    _u("train_function", _TRN, _tn, "VP_H_TRAIN_PERIPH", ["bidib_config_parse_single_train_peripheral"], ["id", "bit", "initial", "p", "q", "r", "1", "31", "32", "zz"], 8, props=["C13", "C14", "C20"]),
     _u("train", _TRN, _tn, "VP_H_TRAIN", ["bidib_config_parse_single_train"], ["id", "dcc-address", "dcc-speed-steps", "calibration", "peripherals", "r", "0x1234", "28", "zz"], 14, elt=16, prefix=5),
     _u("board", _BRD, _tb, "VP_H_BOARD", ["bidib_config_parse_single_board_features"], ["id", "unique-id", "features", "number", "value", "B", "zz"], 20, elt=2, prefix=3, timeout=3000, props=["C13", "C14", "C19"]),
     _u("scalar_then_section", "units/C13/parser_top.c", [f.name for f in _t.by_file[csrc.REPO + "/src/parser/bidib_config_parser.c"]], "VP_H_SECTION", ["bidib_config_parse_scalar_then_section"], ["boards", "trains", "zz"], 9, prefix=3),
